@@ -210,7 +210,9 @@ func c07Oracle(c *lab.Case, res *lab.Result, m *lab.Model, h *lab.History) ([]la
 	facts.Final = final
 	if strings.Contains(finalErr, "nack threshold exceeded") {
 		facts.Threshold = true
-		if firstRefused < 0 {
+		// (with a scripted DLQ failure the fatal error of arch-v2 can carry a follow-up threshold
+		// message for the record whose dead-letter write failed; only judged without one)
+		if firstRefused < 0 && len(c.DLQ.PerRecord) == 0 {
 			add("tolerated-rejection-stopped-pipeline", fmt.Sprintf("the pipeline stopped with %q although the window (size %d, threshold %d) tolerates every scripted rejection", truncateStr(finalErr, 160), c.DLQ.WindowSize, c.DLQ.Threshold), len(res.Events))
 		}
 	}
